@@ -7,6 +7,7 @@ import (
 	"fmt"
 	"os"
 	"os/exec"
+	"os/signal"
 	"path/filepath"
 	"strings"
 	"syscall"
@@ -105,6 +106,17 @@ func c18Child(args []string) int {
 	b, err := os.ReadFile(args[1])
 	if err != nil {
 		return 3
+	}
+	if lim := os.Getenv("VERIF_FSIZE_LIMIT"); lim != "" {
+		// a real write failure from the operating system: no regular file of this process may grow beyond the limit
+		// (EFBIG once SIGXFSZ is ignored), wherever and however the save path writes
+		var n uint64
+		fmt.Sscan(lim, &n)
+		signal.Ignore(syscall.SIGXFSZ)
+		if err := syscall.Setrlimit(syscall.RLIMIT_FSIZE, &syscall.Rlimit{Cur: n, Max: n}); err != nil {
+			fmt.Println("C18RLIMIT-FAILED", err)
+			return 3
+		}
 	}
 	opts := repl.EvalStringOptions()
 	opts.AutoLoad, opts.AutoSave = true, true
@@ -222,8 +234,21 @@ func (p c18) pair(c *fw.Ctx, base, oldKind, newKind string) {
 		faults = append(faults, fault{fmt.Sprintf("VERIF_FAIL_AT=save:write:%d", k), fmt.Sprintf("fail:save:write:%d", k)})
 	}
 	faults = append(faults, fault{fmt.Sprintf("VERIF_FAIL_AT=save:write:%d", nWrites), fmt.Sprintf("fail:save:write:%d", nWrites)})
+	// the operating system refuses to let the file grow beyond L bytes, for L around every buffer boundary and the file's size
+	seenL := map[int]bool{}
+	for _, L := range []int{0, 1, len(newBytes) / 2, len(newBytes) - 1, len(newBytes), len(newBytes) + 1, 4095, 4096, 4097, 8192, len(newBytes) - 4096, len(newBytes) - 4097, len(newBytes) - 100} {
+		if L < 0 || seenL[L] {
+			continue
+		}
+		seenL[L] = true
+		faults = append(faults, fault{fmt.Sprintf("VERIF_FSIZE_LIMIT=%d", L), fmt.Sprintf("oslimit:filesize:%d", L)})
+	}
 	for fi, f := range faults {
 		if fi%c.NBatches != c.Batch {
+			continue
+		}
+		if strings.HasPrefix(f.name, "oslimit:") {
+			p.osLimit(c, base, oldKind, newKind, f.env, f.name, oldBytes, oldExists, newBytes, newProg, vOld, vNew)
 			continue
 		}
 		cs := c18Case{Old: oldKind, New: newKind, Fault: f.name}
@@ -280,6 +305,40 @@ func (p c18) pair(c *fw.Ctx, base, oldKind, newKind string) {
 					fmt.Sprintf("after %s the next (uninterrupted) save wrote %d bytes, in a directory holding only the state file it writes %d bytes: %q", f.name, len(a), len(b), clip(string(a))))
 			}
 		}
+	}
+}
+
+// osLimit runs the new program in a child whose files cannot grow beyond a limit: a save that could not be written
+// completely must leave the previous file, one that fits must produce the complete new file.
+func (p c18) osLimit(c *fw.Ctx, base, oldKind, newKind, env, name string, oldBytes []byte, oldExists bool, newBytes []byte, newProg, vOld, vNew string) {
+	cs := c18Case{Old: oldKind, New: newKind, Fault: name}
+	c.Begin(cs)
+	c.Eval(1)
+	var limit int
+	fmt.Sscanf(env, "VERIF_FSIZE_LIMIT=%d", &limit)
+	dir := c18Fresh(base, "run", oldBytes, oldExists, newProg)
+	r := c18Exec(dir, []string{env}, "run", "new.prog")
+	if !strings.Contains(r.stdout, "C18DONE") {
+		c.Violate("child-died", "oslimit:child-died", cs, "the child did not survive a refused write: "+r.exitErr+" "+clipTail(r.stdout, 300))
+		return
+	}
+	c.ShapeH(fnv64(oldKind + "/" + newKind + "/" + name))
+	c.Count("os_write_limits_injected", 1)
+	got, gotExists := readOrEmpty(filepath.Join(dir, ".gr"))
+	isOld := gotExists == oldExists && bytes.Equal(got, oldBytes)
+	isNew := gotExists && bytes.Equal(got, newBytes)
+	fits := limit >= len(newBytes)
+	switch {
+	case !isOld && !isNew:
+		c.Violate("torn-file", "torn:oslimit", cs, fmt.Sprintf("with files limited to %d bytes ./.gr (%d bytes, exists=%v) is neither the previous file (%d bytes, exists=%v) nor the complete new one (%d bytes): %q",
+			limit, len(got), gotExists, len(oldBytes), oldExists, len(newBytes), clip(string(got))))
+		return
+	case fits && !isNew:
+		c.Violate("save-lost", "oslimit:save-lost", cs, fmt.Sprintf("the new file (%d bytes) fits the limit of %d bytes but was not saved", len(newBytes), limit))
+		return
+	}
+	if v := c18Exec(dir, nil, "dump").stdout; v != vOld && v != vNew {
+		c.Violate("torn-state", "torn-state:oslimit", cs, fmt.Sprintf("a fresh session auto-loads a state that is neither the previous nor the new one: %q", clip(v)))
 	}
 }
 
